@@ -129,13 +129,11 @@ func Refactor(asts []*syntax.Ast,
 		edit := RemoveInputParam(callable, param, asts)
 		if edit != nil {
 			edits = append(edits, edit)
-			if opt.RemoveCalls || len(opt.TopCalls) > 0 {
-				for _, ast := range asts {
-					// Run this on the compiled ASTs so removeCalls has
-					// an up-to-date version of the pipelines.
-					if _, err := edit.Apply(ast); err != nil {
-						return edits, fmt.Errorf("applying edit: %w", err)
-					}
+			for _, ast := range asts {
+				// Run this on the compiled ASTs so the passes below have
+				// an up-to-date version of the pipelines.
+				if _, err := edit.Apply(ast); err != nil {
+					return edits, fmt.Errorf("applying edit: %w", err)
 				}
 			}
 		}
@@ -153,18 +151,17 @@ func Refactor(asts []*syntax.Ast,
 		}
 		if edit != nil {
 			edits = append(edits, edit)
-			if opt.RemoveCalls || len(opt.TopCalls) > 0 {
-				for _, ast := range asts {
-					// Run this on the compiled ASTs so removeCalls has
-					// an up-to-date version of the pipelines.
-					if _, err := edit.Apply(ast); err != nil {
-						return edits, fmt.Errorf("applying edit: %w", err)
-					}
+			for _, ast := range asts {
+				// Run this on the compiled ASTs so the passes below have
+				// an up-to-date version of the pipelines.
+				if _, err := edit.Apply(ast); err != nil {
+					return edits, fmt.Errorf("applying edit: %w", err)
 				}
 			}
 		}
 	}
-	if opt.RemoveCalls || len(opt.TopCalls) > 0 {
+	if opt.RemoveCalls || len(opt.TopCalls) > 0 ||
+		len(opt.RemoveInParams) > 0 || len(opt.RemoveOutParams) > 0 {
 		changes := true
 		for changes {
 			changes = false
@@ -206,6 +203,23 @@ func Refactor(asts []*syntax.Ast,
 						changes = true
 						edits = append(edits, edit)
 					}
+				}
+			}
+			// Each of the edits above decides which pipeline inputs are
+			// still bound without knowing what else is removed from the
+			// same pipeline in the same pass.
+			if edit := removeAllUnboundInputs(asts); edit != nil {
+				count := 0
+				for _, ast := range asts {
+					if c, err := edit.Apply(ast); err != nil {
+						return edits, fmt.Errorf("applying edit: %w", err)
+					} else {
+						count += c
+					}
+				}
+				if count > 0 {
+					changes = true
+					edits = append(edits, edit)
 				}
 			}
 		}
